@@ -1,5 +1,7 @@
 package main
 
+import "math"
+
 // C01: List and Array behave as an ordinal-indexed sequence.
 
 type seqCfg struct {
@@ -46,6 +48,17 @@ func allSteps(kind string, n int, u []int) []seqOp {
 		for _, v := range operandVariants(u) {
 			v.op, v.a = "setValues", []int{i}
 			ops = append(ops, v)
+		}
+	}
+	// the ends of Go's int range: index normalisation must not depend on arithmetic that wraps around
+	for _, i := range []int{math.MinInt, math.MinInt + 1, -(1 << 62), 1 << 62, math.MaxInt - 1, math.MaxInt} {
+		ops = append(ops, seqOp{op: "getValue", a: []int{i}})
+		ops = append(ops, seqOp{op: "setValue", a: []int{i, u[3]}})
+		ops = append(ops, seqOp{op: "getValues", a: []int{i, n}}, seqOp{op: "getValues", a: []int{1, i}}, seqOp{op: "getValues", a: []int{i, i}})
+		ops = append(ops, seqOp{op: "setValues", a: []int{i}, vs: []int{u[1]}})
+		if list {
+			ops = append(ops, seqOp{op: "removeValue", a: []int{i}})
+			ops = append(ops, seqOp{op: "removeValues", a: []int{i, n}}, seqOp{op: "removeValues", a: []int{1, i}})
 		}
 	}
 	if list {
